@@ -581,6 +581,24 @@ class G:
             self.emit("wf %s" % z); self.emit("size %s" % z)
             self.emit("opt %s" % z); self.emit("size %s" % z)
         self.count("alg:fixed-combs")
+        # (c) a RUN receiver minus an ARRAY argument that punches 2040…2100 isolated holes into its runs (the difference has about as
+        #     many runs as a run container may keep: it comes out as a run, an array or a bitmap container depending on the count),
+        #     both forms, then cardinality, size, validity and a second difference on the result
+        base = 17 * CH
+        for holes in (2040, 2047, 2048, 2049, 2100, 4096):
+            for span in (9000, 65536):
+                if holes * 2 + 2 > span:
+                    continue
+                x, y = self.fresh("rh"), self.fresh("rh")
+                self.emit("new %s" % x); self.emit("addr %s %d %d" % (x, base, base + span)); self.emit("opt %s" % x)
+                self.emit("new %s" % y); self.emit("addstride %s %d 2 %d" % (y, base + 1, holes))
+                z = self.fresh("rh")
+                self.emit("andnot %s %s %s" % (z, x, y)); self.emit("card %s" % z); self.emit("wf %s" % z); self.emit("size %s" % z)
+                self.emit("iandnot %s %s" % (x, y)); self.emit("card %s" % x); self.emit("wf %s" % x); self.emit("size %s" % x)
+                self.emit("eq %s %s" % (x, z))
+                self.emit("iandnot %s %s" % (x, y)); self.emit("card %s" % x)
+                self.emit("rem %s %d" % (x, base)); self.emit("card %s" % x); self.emit("wf %s" % x)
+            self.count("alg:fixed-run-minus-array-holes")
 
     def alg_inplace_key_grid(self):
         """EXHAUSTIVE small key layouts for the in-place drivers (their merge loops over the two key arrays, the bulk tails, dropped
